@@ -4,8 +4,8 @@
      _parse_tles_for_downloader / Downloader.read_tle_files, read_tles_from_mmam_xml_files,
      read_tle_from_mmam_xml_file (identity on (line-1, line-2) pairs), read_platform_numbers (86-106).
    Domain: 7-bit ASCII.  A source is the list of its lines as the file iterator yields them
-   (split after every "\n", terminators kept); the cursor of `for l_0 in fid` / `next(fid)` is the
-   remaining list. *)
+   (split after every "\n", terminators kept, so a line holds "\n" at most as its last character);
+   the cursor of `for l_0 in fid` / `next(fid)` is the remaining list. *)
 From Coq Require Import List Ascii Bool Arith NArith.
 Import ListNotations.
 
@@ -161,9 +161,12 @@ Definition xml_lines (navs : list (line * line)) : list line :=
   add_newlines (flat_map (fun p => [fst p; snd p]) navs).
 
 (* ---------- bulk reads ---------- *)
-(* Tle("", tle_file=io.StringIO(tle)) on one merged "l1\nl2" string *)
+(* Tle("", tle_file=io.StringIO(tle)) on one merged "l1\nl2" string.  io.StringIO splits it after the
+   "\n" (stripped lines hold no "\n" themselves); an empty second part yields NO second line *)
+Definition merged_lines (t : tle) : list line :=
+  (fst t ++ [nl]) :: match snd t with [] => [] | b => [b] end.
 Definition tle_of_pair (sats : dict) (t : tle) : outcome :=
-  read_tle sats true [] [[fst t ++ [nl]; snd t]].
+  read_tle sats true [] [merged_lines t].
 
 Inductive bulk := BulkOk (ts : list tle) | BulkErr (o : outcome).
 
